@@ -1281,6 +1281,19 @@ def run_C19(ctx):
                 ctx.fail(c, "%s heap allocation(s) during the parse call (%s)" % (m.group(2), variant), impl=iraw)
     # every no_std switch combination must build against core alone
     check_all_switches_build(ctx, stds=(False,))
+    # a final link unit without std and without a global allocator: builds only if the crate needs `core` alone
+    pd = os.path.join(VERIF, "harness", "probe")
+    lock = os.path.join(pd, "Cargo.lock")
+    if not os.path.exists(lock) and os.path.exists(os.path.join(REPO, "Cargo.lock")):
+        shutil.copy(os.path.join(REPO, "Cargo.lock"), lock)
+    penv = {"CARGO_TARGET_DIR": os.path.join(BUILD, "cargo", "probe"), "CARGO_NET_OFFLINE": "true"}
+    for prof in ([], ["--release"]):
+        rc, out = sh(["cargo", "build", "--offline"] + prof, cwd=pd, env=penv, timeout=600)
+        ctx.evaluations += 1
+        if rc != 0:
+            err = [l for l in out.splitlines() if l.startswith("error")][:3]
+            ctx.fail("core-only-link", "a #![no_std] staticlib without a global allocator that links the crate with the std feature off "
+                     "does not build (harness/probe, cargo build %s): %s" % (" ".join(prof), " | ".join(err)[:400]))
     # the crate alone, against core only
     env = {"CARGO_TARGET_DIR": os.path.join(BUILD, "cargo", "nostd-lib")}
     for prof in ([], ["--release"]):
